@@ -29,7 +29,9 @@ class CreateRegions(Harness):
                  "antismash.common.secmet.features.region.structures:Region.__init__",
                  "antismash.common.secmet.features.cdscollection:CDSCollection.__lt__",
                  "antismash.common.secmet.locations:connect_locations"]
-    bound = "A <= 3 (quick) / 4 (thorough) areas, each a subregion or a single-protocluster candidate cluster, simple or origin-spanning, symbolic coordinates and record length, linear and circular"
+    bound = ("A <= 3 areas, each a subregion or a single-protocluster candidate cluster, simple or origin-spanning, symbolic coordinates "
+             "and record length, linear and circular; A = 4 supplied by ascending start (linear; ring with the first area origin-spanning): "
+             "quick four subregions, thorough also alternating candidate clusters and subregions")
     outside = "A > 4; candidate clusters with several protoclusters (their location is still one span)"
     task_paths = 150
 
@@ -41,6 +43,11 @@ class CreateRegions(Harness):
                 if tier == "quick" and a == 3 and kinds not in (("S", "S", "S"), ("C", "S", "C"), ("C", "C", "C")):
                     continue
                 if tier == "thorough" and a == 4 and kinds not in (("S", "S", "S", "S"), ("C", "S", "C", "S")):
+                    continue
+                if a == 4:
+                    # four free areas cost ~10^4 paths per variant: supplied by ascending start, origin-spanning area first
+                    out.append({"kinds": list(kinds), "shapes": ["s"] * a, "circ": False, "sorted": True})
+                    out.append({"kinds": list(kinds), "shapes": ["o"] + ["s"] * (a - 1), "circ": True, "sorted": True})
                     continue
                 out.append({"kinds": list(kinds), "shapes": ["s"] * a, "circ": False})
                 out.append({"kinds": list(kinds), "shapes": ["s"] * a, "circ": True})
